@@ -504,9 +504,29 @@ package server
 // The write loop (C01, C02, C03, C04, C06, C09, C19): every key written for a batch element has the layout the
 // readers and the garbage collector decode, is stamped with the transaction time and goes through the caller's txn.
 
-//@ assumed (*Store).assertIDForURI
-//@   modifies $held, $acq, map[string]uint64
+// internal ids: a URI seen earlier in the batch keeps the id cached for it; a URI with a stored mapping gets the stored id;
+// a new URI gets the next value of the id sequence, and BOTH directions (uri -> id, id -> uri) are written through the
+// shared id transaction, which the batch commits before its data (see StoreEntities / ExecuteTransaction)
+//@ assumed (*badger.Sequence).Next
+//@   pure
+//@ unit (*Store).assertIDForURI
+//@   prop C13 C04
+//@   ghost seqG int = 0
+//@   requires s != nil && s.database != nil && localTxnCache != nil && !has($held, lockerAddr(s.idmux))
+//@   requires [callers-hold-no-lock-at-or-above-the-id-lock] forall l int :: has($held, l) ==> lockLevel(l) < 4
+//@   requires-inv [the-id-lock-is-a-standalone-mutex] s != nil ==> lockLevel(lockerAddr(s.idmux)) == 4
+//@   modifies $held, $acq, Store.idtxn, map[string]uint64
+//@   ensures [C13:a-uri-seen-earlier-in-the-batch-keeps-its-id] old(has(localTxnCache, uri)) && uri != "" ==> ret2 == nil && ret0 == old(localTxnCache[uri]) && !ret1
+//@   ensures [C13:the-id-handed-out-is-cached-for-the-rest-of-the-batch] ret2 == nil ==> has(localTxnCache, uri) && localTxnCache[uri] == ret0
+//@   ensures [C13:empty-uri-rejected] uri == "" ==> ret2 != nil
+//@   ensures [C05:id-lock-released] $held == old($held)
 //@   ensures ret2 == nil ==> ret0 >= 0
+//@   at call Next#1
+//@     ghost seqG := $result0
+//@   at call Set#1 before
+//@     assert [C13,C04:uri-to-id-entry-written-through-the-shared-id-transaction] $arg0 == s.idtxn && encBE16(key, 0) == URIToIDIndexID && len(val) == 8 && encBE64(val, 0) == seqG && rid == seqG
+//@   at call Set#2 before
+//@     assert [C13,C04:id-to-uri-entry-written-in-the-same-id-transaction-for-the-same-id] $arg0 == s.idtxn && len(key) == 10 && encBE16(key, 0) == IDToURIIndexID && encBE64(key, 2) == seqG
 
 //@ unit (*Dataset).StoreEntitiesWithTransaction
 //@   prop C01 C02 C03 C04 C06 C09 C19
@@ -522,7 +542,9 @@ package server
 //@   requires ds != nil && ds.store != nil && txn != nil && txnTime >= 0
 //@   requires forall i int :: 0 <= i && i < len(entities) ==> entities[i] != nil
 //@   requires ds.fullSyncStarted ==> ds.fullSyncSeen != nil
-//@   frame-assumed preserves Dataset.ID, Dataset.InternalID, Dataset.store, Store.NamespaceManager, Store.datasets
+//@   requires [callers-hold-only-locks-below-the-id-lock] (forall l int :: has($held, l) ==> lockLevel(l) < 4) && !has($held, lockerAddr(ds.store.idmux))
+//@   requires-inv [the-store-is-open] ds != nil && ds.store != nil ==> ds.store.database != nil
+//@   frame-assumed preserves Dataset.ID, Dataset.InternalID, Dataset.store, Store.NamespaceManager, Store.datasets, Store.datasetsByInternalID, Store.idmux, Store.database, Store.deletedDatasets, Store.MetaCtx, Store.nextDatasetID
 //@   safe nilmap
 //@   at call assertIDForURI#1 before
 //@     ghost firstG := false
@@ -601,6 +623,7 @@ package server
 //@   prop C04 C05 C19
 //@   requires [callers-hold-no-lock-above-dataset-level] forall l int :: has($held, l) ==> lockLevel(l) <= 2
 //@   requires [only-core-dataset-is-written-while-another-datasets-write-lock-is-held] forall d *Dataset :: has($held, addrOf(d.WriteLock)) ==> ds.ID == "core.Dataset" && d.ID != "core.Dataset"
+//@   requires-inv [the-id-lock-is-a-standalone-mutex] ds != nil && ds.store != nil ==> lockLevel(lockerAddr(ds.store.idmux)) == 4
 //@   ghost idsCommittedG bool = false
 //@   ghost committedG bool = false
 //@   ghost txnG int = 0
@@ -890,6 +913,7 @@ package server
 //@   ghost txnG int = 0
 //@   requires s != nil && transaction != nil && s.MetaCtx != nil
 //@   requires [callers-hold-no-dataset-lock] forall l int :: has($held, l) ==> lockLevel(l) < 2
+//@   requires-inv [the-id-lock-is-a-standalone-mutex] s != nil ==> lockLevel(lockerAddr(s.idmux)) == 4
 //@   safe typeassert
 //@   at call NewTransaction#1
 //@     ghost txnG := $result
@@ -900,7 +924,7 @@ package server
 //@   at call Lock#1 before
 //@     assert [C05:dataset-locks-taken-in-name-order] forall d *Dataset :: has($held, addrOf(d.WriteLock)) ==> d.ID < cast(dataset, "*server.Dataset").ID
 //@   at call StoreEntitiesWithTransaction#1 before
-//@     assume ds != nil && ds.store != nil && (ds.fullSyncStarted ==> ds.fullSyncSeen != nil) && (forall i int :: 0 <= i && i < len(entities) ==> entities[i] != nil)
+//@     assume ds != nil && ds.store == s && (ds.fullSyncStarted ==> ds.fullSyncSeen != nil) && (forall i int :: 0 <= i && i < len(entities) ==> entities[i] != nil)
 //@     assert [C04:all-datasets-written-in-one-transaction] txn == txnG
 //@   at call commitIDTxn#1
 //@     ghost idsCommittedG := $result == nil
